@@ -217,6 +217,7 @@ func init() {
 					return
 				}
 				n := 0
+				fwds := e.verdictForwarders(evs)
 				for _, fn := range e.funcs("core") {
 					ws := cs.writeEvents(fn)
 					if len(ws) == 0 {
@@ -234,8 +235,15 @@ func init() {
 								isEv = true
 							}
 						}
-						if !isEv {
+						isFwd := fwds[c.Call.StaticCallee()]
+						if !isEv && !isFwd {
 							return
+						}
+						if isEv && len(e.structFieldStores(qiArg(c), "ConditionExpression")) == 0 {
+							return // a key-condition/filter evaluation of the search, not a write condition
+						}
+						if fwds[fn] {
+							return // the forwarder itself: judged at its call sites
 						}
 						n++
 						construct := e.fname(fn) + ":verdict-before-write"
@@ -245,28 +253,21 @@ func init() {
 								bad = fmt.Sprintf("the condition is evaluated at %s after %s at %s", e.ipos(c), w.what, e.ipos(w.in))
 							}
 						}
-						// the refusing edge: matched == false must lead to a return without passing a write
-						for _, ex := range extractOf(c, 1) {
-							for _, r := range refsOf(ex) {
-								ifi, ok := r.(*ssa.If)
-								if !ok {
-									// `if !matched`
-									if u, ok := r.(*ssa.UnOp); ok && u.Op == token.NOT {
-										for _, rr := range refsOf(u) {
-											if i2, ok := rr.(*ssa.If); ok {
-												ifi = i2
-												// true edge of !matched = refused
-												if w := firstWriteReachable(ws, i2.Block().Succs[0]); w != nil {
-													bad = fmt.Sprintf("on the refused edge of the condition, %s at %s is still reachable", w.what, e.ipos(w.in))
-												}
-											}
-										}
-									}
-									continue
-								}
-								if w := firstWriteReachable(ws, ifi.Block().Succs[1]); w != nil {
-									bad = fmt.Sprintf("on the refused edge of the condition, %s at %s is still reachable", w.what, e.ipos(w.in))
-								}
+						// the refusing edge: along every path on which the verdict is false no write may be reached
+						var verdicts []ssa.Value
+						if isFwd {
+							verdicts = []ssa.Value{c}
+						} else {
+							for _, ex := range extractOf(c, 1) {
+								verdicts = append(verdicts, ex)
+							}
+						}
+						if len(verdicts) == 0 {
+							bad = "the verdict of the condition is never used: a refused condition does not stop the write"
+						}
+						for _, v := range verdicts {
+							if w := writeReachableUnder(ws, c, map[ssa.Value]bool{v: false}); w != nil {
+								bad = fmt.Sprintf("on the refused edge of the condition, %s at %s is still reachable", w.what, e.ipos(w.in))
 							}
 						}
 						if bad != "" {
@@ -447,6 +448,131 @@ func init() {
 	})
 }
 
+// verdictForwarders: package-local functions that evaluate the write condition through an evaluator and hand its verdict
+// back unchanged as their only (boolean) result – conditionHolds(cond, values, names, item) bool. A call of a forwarder is
+// a condition evaluation at the call site, its value is the verdict.
+func (e *Engine) verdictForwarders(evs []*ssa.Function) map[*ssa.Function]bool {
+	out := map[*ssa.Function]bool{}
+	isEv := map[*ssa.Function]bool{}
+	for _, ev := range evs {
+		isEv[ev] = true
+	}
+	for _, fn := range e.funcs("core") {
+		if fn.Parent() != nil || isEv[fn] || fn.Signature.Results().Len() != 1 || !isBoolType(fn.Signature.Results().At(0).Type()) {
+			continue
+		}
+		ok := false
+		all := true
+		for _, r := range returnsOf(fn) {
+			ex, isEx := strip(retVals(r)[0]).(*ssa.Extract)
+			if !isEx || ex.Index != 1 {
+				all = false
+				continue
+			}
+			c, isC := ex.Tuple.(*ssa.Call)
+			if !isC || !isEv[c.Call.StaticCallee()] || len(e.structFieldStores(qiArg(c), "ConditionExpression")) == 0 {
+				all = false
+				continue
+			}
+			ok = true
+		}
+		if ok && all {
+			out[fn] = true
+		}
+	}
+	return out
+}
+
+// writeReachableUnder: starting right after instruction `from`, is one of the write events reachable along a path that is
+// consistent with the given truth values (the verdict is false, say)? Branch conditions are evaluated from the facts
+// through negation, boolean (in)equality and the phis of short-circuit expressions (resolved against the edge the path
+// came along); a condition that cannot be decided is explored both ways.
+func writeReachableUnder(ws []wEvent, from ssa.Instruction, facts map[ssa.Value]bool) *wEvent {
+	type state struct{ b, prev *ssa.BasicBlock }
+	var eval func(v ssa.Value, cur, prev *ssa.BasicBlock, d int) (bool, bool)
+	eval = func(v ssa.Value, cur, prev *ssa.BasicBlock, d int) (bool, bool) {
+		if d > 8 {
+			return false, false
+		}
+		if val, ok := facts[v]; ok {
+			return val, true
+		}
+		switch x := v.(type) {
+		case *ssa.Const:
+			return constBool(x)
+		case *ssa.UnOp:
+			if x.Op == token.NOT {
+				r, ok := eval(x.X, cur, prev, d+1)
+				return !r, ok
+			}
+		case *ssa.Phi:
+			if x.Block() == cur && prev != nil {
+				for i, p := range cur.Preds {
+					if p == prev {
+						return eval(x.Edges[i], prev, nil, d+1)
+					}
+				}
+			}
+		case *ssa.BinOp:
+			if (x.Op == token.EQL || x.Op == token.NEQ) && isBoolType(x.X.Type()) {
+				a, ok1 := eval(x.X, cur, prev, d+1)
+				b, ok2 := eval(x.Y, cur, prev, d+1)
+				if ok1 && ok2 {
+					return (a == b) == (x.Op == token.EQL), true
+				}
+			}
+		}
+		return false, false
+	}
+	hits := func(b *ssa.BasicBlock, afterIdx int) *wEvent {
+		for i := range ws {
+			if ws[i].in.Block() == b && instrIndex(ws[i].in) > afterIdx {
+				return &ws[i]
+			}
+		}
+		return nil
+	}
+	if w := hits(from.Block(), instrIndex(from)); w != nil {
+		return w
+	}
+	seen := map[state]bool{}
+	var work []state
+	push := func(b, prev *ssa.BasicBlock) {
+		st := state{b, prev}
+		if !seen[st] {
+			seen[st] = true
+			work = append(work, st)
+		}
+	}
+	step := func(b, prev *ssa.BasicBlock) {
+		switch t := b.Instrs[len(b.Instrs)-1].(type) {
+		case *ssa.If:
+			if val, ok := eval(t.Cond, b, prev, 0); ok {
+				if val {
+					push(b.Succs[0], b)
+				} else {
+					push(b.Succs[1], b)
+				}
+				return
+			}
+			push(b.Succs[0], b)
+			push(b.Succs[1], b)
+		case *ssa.Jump:
+			push(b.Succs[0], b)
+		}
+	}
+	step(from.Block(), nil)
+	for len(work) > 0 {
+		st := work[len(work)-1]
+		work = work[:len(work)-1]
+		if w := hits(st.b, -1); w != nil {
+			return w
+		}
+		step(st.b, st.prev)
+	}
+	return nil
+}
+
 func firstWriteReachable(ws []wEvent, from *ssa.BasicBlock) *wEvent {
 	reach := reachableFrom(from)
 	reach[from] = true
@@ -480,6 +606,7 @@ func c05R4(e *Engine) {
 		return
 	}
 	// (a) in core: the error returned on the refused edge carries the code
+	fwds := e.verdictForwarders(evs)
 	for _, fn := range e.funcs("core") {
 		instrs(fn, func(in ssa.Instruction) {
 			c, ok := in.(*ssa.Call)
@@ -492,7 +619,11 @@ func c05R4(e *Engine) {
 					isEv = true
 				}
 			}
-			if !isEv || len(e.structFieldStores(qiArg(c), "ConditionExpression")) == 0 {
+			isFwd := fwds[c.Call.StaticCallee()]
+			if fwds[fn] {
+				return // a forwarder hands the verdict on: the refusal is made by its callers
+			}
+			if !isFwd && (!isEv || len(e.structFieldStores(qiArg(c), "ConditionExpression")) == 0) {
 				return
 			}
 			construct := e.fname(fn) + ":refusal-code"
@@ -507,6 +638,9 @@ func c05R4(e *Engine) {
 				for _, cd := range condsAt(r.Block()) {
 					cd = normCond(cd)
 					if ex, ok := cd.V.(*ssa.Extract); ok && ex.Tuple == ssa.Value(c) && ex.Index == 1 && !cd.Val {
+						refused = true
+					}
+					if isFwd && cd.V == ssa.Value(c) && !cd.Val {
 						refused = true
 					}
 				}
@@ -538,7 +672,7 @@ func c05R4(e *Engine) {
 		}
 		sort.Slice(fam, func(i, j int) bool { return fam[i].Pos() < fam[j].Pos() })
 		scan := func(in ssa.Instruction) {
-			if b, ok := in.(*ssa.BinOp); ok && b.Op == token.EQL {
+			if b, ok := in.(*ssa.BinOp); ok && (b.Op == token.EQL || b.Op == token.NEQ) {
 				if s, ok := constString(b.Y); ok && s == code {
 					mapped = true
 				}
